@@ -48,6 +48,7 @@ type Exec struct {
 
 	Kunwind int
 	Kalloc  int
+	Kgrow   int
 	MaxDepth int
 
 	nondets []nondet
@@ -330,6 +331,14 @@ func (ex *Exec) newState() *State {
 // mergeStates merges b into a (both arriving at the same program point).
 func (ex *Exec) mergeStates(a, b *State) *State {
 	ex.nMerges++
+	if debugVC {
+		tt := len(ex.tb.terms)
+		defer func() {
+			if d := len(ex.tb.terms) - tt; d > 3000 {
+				fmt.Printf("BIGMERGE created %d terms (heap %d/%d regs %d/%d)\n", d, len(a.heap), len(b.heap), len(a.regs), len(b.regs))
+			}
+		}()
+	}
 	tb := ex.tb
 	// common pc prefix
 	k := 0
@@ -491,7 +500,16 @@ func (ex *Exec) callFunction(st *State, fn *ssa.Function, args []Value, bind []V
 	}
 	ex.depth++
 	ex.curFn = append(ex.curFn, fn)
-	defer func() { ex.depth--; ex.curFn = ex.curFn[:len(ex.curFn)-1] }()
+	t0terms := len(ex.tb.terms)
+	defer func() {
+		ex.depth--
+		ex.curFn = ex.curFn[:len(ex.curFn)-1]
+		if debugVC {
+			if d := len(ex.tb.terms) - t0terms; d > 20000 {
+				fmt.Printf("TERMS %s created %d (total %d)\n", fn.String(), d, len(ex.tb.terms))
+			}
+		}
+	}()
 	ex.funcsSeen[fn.String()] = true
 	fi := ex.info(fn)
 	fr := &frame{fn: fn, fi: fi, pending: map[*ssa.BasicBlock]*State{}, deferred: map[*ssa.BasicBlock]*State{}, iters: map[*ssa.BasicBlock]int{}, constHdr: map[*ssa.BasicBlock]bool{}}
@@ -577,6 +595,9 @@ func (ex *Exec) callFunction(st *State, fn *ssa.Function, args []Value, bind []V
 
 func (ex *Exec) runBlock(fr *frame, s *State, b *ssa.BasicBlock) {
 	ex.nStates++
+	if debugVC {
+		fmt.Printf("BLOCK %s b%d (%s) terms=%d heap=%d pc=%d\n", fr.fn.Name(), b.Index, b.Comment, len(ex.tb.terms), len(s.heap), len(s.pc))
+	}
 	for _, in := range b.Instrs {
 		if _, ok := in.(*ssa.Phi); ok {
 			continue
@@ -649,7 +670,11 @@ func (ex *Exec) runBlock(fr *frame, s *State, b *ssa.BasicBlock) {
 			ex.vc(s, "panic", ex.site(in)+": explicit panic", ex.tb.True)
 			return
 		default:
+			tt := len(ex.tb.terms)
 			ex.instr(s, in)
+			if debugVC && len(ex.tb.terms)-tt > 3000 {
+				fmt.Printf("BIGINSTR %s: %s created %d\n", ex.site(in), in.String(), len(ex.tb.terms)-tt)
+			}
 			if s.dead {
 				return
 			}
